@@ -10,7 +10,9 @@ T: random real-valued curves: per-gap classes (wide, high) and counts m computed
    Calls whose decisions are within rounding noise of a threshold / an integer are flagged ambiguous (not judged).
 S: the scale family - production-size curves (2^8 .. 10^5 points, sizes straddling 2^8, 2^10, 2^12, 10^4, 2^14, 2^15, 2^16,
    10^5) rebuilt from small recipes, replayed under loop budgets, judged by Trace_EvenScale with SPARSE tables (gap classes
-   and counts of the marker pairs, exact height ranks of the mentioned indices only)."""
+   and counts of the marker pairs, exact height ranks of the mentioned indices only).  Its `runs` family lays out 129 ..
+   several thousand knees / retained points with dense runs (64 .. 1024+ consecutive markers inside an x-span below 2*tx)
+   each followed at once by a gap wider than 2*tx and taller than ty, run ends on and off the multiples of 64 .. 1024."""
 import json
 import math
 import random
@@ -265,6 +267,100 @@ def _s_markers(rec, n, rng, pool=None):
     return {"knees": sorted(knees)}
 
 
+def _s_runs(rec, n, rng, x, y):
+    """Layout of the `runs` family.  The recipe lists units {L, s, f, B, off, pad, fs}: c filler markers (index stride fs)
+    bring the array of markers the function walks (the knees of add_points_even_knees, the retained points of
+    add_points_even) to the ordinal at which a RUN of L markers (index stride s) starts, such that the first marker AFTER the
+    run has an ordinal = off (mod B); the run spans less than 2*tx on the x axis and the gap that follows it at once is
+    f * 2*tx wide (so it receives ceil(f) .. points) and, for most draws of ty, taller than ty.  The layout is made in index
+    units of D (the index distance that 2*tx stands for); tx and ty are then derived from the actual abscissae / ordinates
+    of the runs and gaps, so that the runs ARE narrow and the gaps ARE wide whatever the abscissa layout.  Units that do not
+    fit into n are simplified (filler stride, padding blocks, run stride, number of units, then B and L halved)."""
+    units = [dict(u) for u in rec["units"]]
+    first = 1 if rec["fn"] == "reduced" else 0           # ordinal of the first free slot (retained point 0 is index 0)
+    room = n - 4
+
+    def fixed(us):
+        cnt, tot = first, 0
+        for u in us:
+            u["c"] = (u["off"] - cnt - u["L"]) % u["B"] + u["B"] * u["pad"]
+            tot += u["c"] * u["fs"] + (u["L"] - 1) * u["s"]
+            cnt += u["c"] + u["L"]
+        return tot
+
+    def dmin(us):
+        return max((u["L"] - 1) * u["s"] for u in us) / 0.8 + 2.0
+
+    def need(us, D):
+        return fixed(us) + sum(int(math.ceil(u["f"] * D)) + 1 for u in us) + 2
+
+    while need(units, dmin(units)) > room:
+        if any(u["fs"] > 1 for u in units):
+            for u in units:
+                u["fs"] = 1
+        elif any(u["pad"] > 0 for u in units):
+            for u in units:
+                u["pad"] = 0
+        elif any(u["s"] > 1 for u in units):
+            for u in units:
+                u["s"] = 1
+        elif len(units) > 1:
+            units.pop()
+        elif units[0]["B"] > units[0]["L"]:
+            units[0]["B"] //= 2
+            units[0]["off"] %= units[0]["B"]
+        elif units[0]["L"] > 4:
+            units[0]["L"] //= 2
+        else:
+            raise AssertionError("runs layout does not fit into %d points" % n)
+    d0 = dmin(units)
+    fx = fixed(units)
+    d1 = max(d0, (room - fx - 2 - len(units)) / (sum(u["f"] for u in units) + 0.05 * len(units) + rec["lead"]))
+    D = d0 * (d1 / d0) ** (rng.random() ** 2)
+    while need(units, D) + int(rec["lead"] * D) > room and D > d0:
+        D = max(d0, D * 0.97)
+    lead = 1 + (int(rec["lead"] * D) if need(units, D) + int(rec["lead"] * D) <= room else 0)
+    marks, probes, pos = [], [], lead
+    for j, u in enumerate(units):
+        marks += [pos + k * u["fs"] for k in range(u["c"])]
+        pos += u["c"] * u["fs"]
+        run = [pos + k * u["s"] for k in range(u["L"])]
+        marks += run
+        nxt = run[-1] + int(math.ceil(u["f"] * D)) + 1
+        if j == len(units) - 1 and rec["tail"]:
+            nxt = n - 1                                  # the last run is followed by the curve's end point
+        assert nxt <= n - 1
+        probes.append({"run": [run[0], run[-1]], "gap": [run[-1], nxt], "L": u["L"], "end_ordinal": first + len(marks)})
+        pos = nxt
+    if pos < n - 1:
+        marks.append(pos)                                # the marker that closes the last gap, then a few sparse ones
+        for _ in range(rec["sparse"]):
+            pos += 1 + int(rng.uniform(0.3, 3.0) * D)
+            if pos >= n - 1:
+                break
+            marks.append(pos)
+    assert all(0 < k < n - 1 for k in marks) and all(a < b for a, b in zip(marks[:-1], marks[1:]))
+    # thresholds from the actual coordinates: every run narrower than 2*tx, every gap after a run wider (if possible)
+    dxr, dyr = float(x.max() - x.min()), float(y.max() - y.min())
+    lo = max((x[p["run"][1]] - x[p["run"][0]]) / dxr for p in probes)
+    hi = min((x[p["gap"][1]] - x[p["gap"][0]]) / dxr for p in probes)
+    two = D / (n - 1.0)
+    if not (lo * 1.01 < two < hi * 0.99):
+        two = 0.5 * (lo + hi) if lo * 1.01 < hi * 0.99 else hi * 0.97
+    hs = sorted(h for h in (abs(float(y[p["gap"][1]] - y[p["gap"][0]])) / dyr for p in probes) if h > 0)
+    if not hs:
+        ty = 0.0005
+    else:
+        ty = min(hs[0] * rec["tyf"], hs[-1] * 0.9)       # tyf > 1: the least tall of these gaps are not candidates
+    if rec["fn"] == "reduced":
+        red = [0] + marks + [n - 1]
+        args = {"reduced": red, "kpos": sorted(rng.sample(range(len(red)), rng.choice([0, 5, 60, len(red) // 3])))}
+    else:
+        args = {"knees": marks}
+    args.update({"_tx": float(two) / 2.0, "_ty": float(ty), "_probes": probes, "_units": units})
+    return args
+
+
 def _s_build(rec):
     """recipe -> (P float64 (n, 2), call arguments, exact: all decisions are exact in binary64)"""
     n, fam = rec["n"], rec["fam"]
@@ -306,6 +402,11 @@ def _s_build(rec):
         y[imax], y[imin] = top, 0
         args = _s_markers(rec, n, rng, pool=fpos)
         exact = True
+    elif fam == "runs":                      # many knees: dense runs, each followed immediately by a wide, tall gap
+        y = np.array(_s_shape(rec["shape"], n, rng, g), dtype=float)
+        x = _s_x(rec["xmode"], n, g)
+        args = _s_runs(rec, n, rng, x, y)
+        exact = False
     else:                                    # dense: thousands of markers / knees / inserted points
         y = np.array(_s_shape(rec["shape"], n, rng, g), dtype=float)
         x = _s_x(rec["xmode"], n, g)
@@ -375,7 +476,10 @@ def _s_call(kind, P, args, tx, ty, ext):
 def _s_record(rec):
     """recipe -> (sparse case for Trace_EvenScale, summary for the evidence)"""
     P, args, exact = _s_build(rec)
-    n, kind, tx, ty, ext = len(P), rec["fn"], rec["tx"], rec["ty"], bool(rec["extremes"])
+    probes = args.pop("_probes", [])
+    units = args.pop("_units", [])
+    # the runs family derives its thresholds from the layout it built (they are reported in the summary / the violation)
+    n, kind, tx, ty, ext = len(P), rec["fn"], args.pop("_tx", rec.get("tx")), args.pop("_ty", rec.get("ty")), bool(rec["extremes"])
     if kind == "reduced":
         markers = list(args["reduced"])
         kmap = [markers[p] for p in args["kpos"]]
@@ -405,6 +509,23 @@ def _s_record(rec):
          "extremes": ext, "idx": idx, "hr": hr, "raised": raised, "out": out}
     info = {"ambiguous": amb, "candidates": cand, "markers": len(markers), "union": len(union), "returned": len(out),
             "inserted": sum(g[4] for g in gaps if g[2] and g[3]), "past_int16": sum(1 for k in union if k > 32767), "ties": ties}
+    if rec["fam"] == "runs":
+        # a probe = a run of L markers inside an x-span below 2*tx whose very next gap is a candidate (wider than 2*tx and
+        # taller than ty); `hit`: at least one of its ceil(w/(2 tx)) even points is strictly inside the gap and is in the
+        # returned array, i.e. losing the gap's points would change the result of this call
+        gd = {(g[0], g[1]): g for g in gaps}
+        outs = set(out)
+        ftx = Fraction(float(tx))
+        xr = Fraction(float(P[:, 0].max())) - Fraction(float(P[:, 0].min()))
+        pr = []
+        for p in probes:
+            a, b = p["gap"]
+            g = gd[(a, b)]
+            narrow = (Fraction(float(P[p["run"][1], 0])) - Fraction(float(P[p["run"][0], 0]))) / xr < 2 * ftx
+            pts = [a + j * ((b - a) // g[4]) for j in range(1, g[4] + 1)] if (g[2] and g[3]) else []
+            pr.append({"L": p["L"], "end_ordinal": p["end_ordinal"], "narrow_run": bool(narrow), "candidate": bool(g[2] and g[3]),
+                       "m": g[4], "hit": any(a < k < b and k in outs for k in pts)})
+        info.update({"tx": tx, "ty": ty, "probes": pr, "units": units})
     return c, info
 
 
@@ -465,6 +586,38 @@ def _s_recipes(ctx):
              "xmode": rng.choice(["unit", "steps"]), "mode": mode, "big": big, "fn": fn,
              "tx": (u / (2.0 * big)) if mode == "markers" else 1.0 / (2.0 * big * rng.uniform(1.0, 1.5)),
              "ty": (0.2 / big) if mode == "markers" else rng.choice([0.01, 0.0005])}, exts=(rng.random() < 0.5,))
+    # runs: many knees with dense runs followed at once by a wide, tall gap.  Every (function, block size B) combination
+    # once with a run of L >= B markers that ends exactly on a multiple of B (the first marker after the gap has an ordinal
+    # = 0 mod B), accompanied by free units (run lengths 64 / 128 / 256 / 1024 / ragged, ends on, next to and off the
+    # multiples of 64 / 128 / 256 / 1024), plus free draws
+    def unit(B=None):
+        if B is not None:
+            L = rng.choice([v for v in (128, 256, 1024, B + rng.randrange(1, 200), 2 * B) if v >= B])
+            off = 0
+        else:
+            B = rng.choice([64, 128, 256, 1024])
+            L = rng.choice([64, 128, 256, 1024, rng.randrange(65, 1500)])
+            off = rng.choice([0, 0, 1, B - 1, rng.randrange(B)])
+        return {"L": L, "s": rng.choice([1, 1, 2, 3]), "f": round(rng.uniform(1.05, 4.6), 3), "B": B, "off": off,
+                "pad": rng.choice([0, 0, 1, 2]), "fs": rng.choice([1, 1, 2, 4, 9])}
+
+    rcombos = [(fn, B) for fn in ("markers", "reduced") for B in (64, 128, 256, 1024)] * (1 if q else 3)
+    rcombos += [(rng.choice(["markers", "markers", "reduced"]), None) for _ in range(4 if q else 16)]
+    for fn, B in rcombos:
+        units = [unit(B)] + [unit() for _ in range(rng.choice([0, 1, 2, 3]))]
+        if len(units) > 1 and rng.random() < 0.5:
+            units[0], units[1] = units[1], units[0]
+        if sum(u["L"] for u in units) < 140:
+            units[0]["pad"] = max(units[0]["pad"], 2)       # at least 129 markers
+        dm = max(u["L"] * u["s"] for u in units) / 0.8
+        want = sum(u["L"] * u["s"] + u["f"] * dm + u["B"] * (1 + u["pad"]) * u["fs"] for u in units) + 3 * dm + 100
+        n = rng.choice([v for v in ns if v >= 1.15 * want] or [ns[-1]])
+        add({"fam": "runs", "n": n, "seed": rng.randrange(1 << 30),
+             "shape": rng.choice(["decay", "decay", "noisy", "mrc"] + (["stair", "valley"] if B is None else [])),
+             "xmode": rng.choice(S_XMODES), "fn": fn, "units": units, "lead": rng.choice([0.0, 0.3, 1.5]),
+             "tail": rng.random() < 0.25, "sparse": rng.choice([0, 1, 3, 8]),
+             "tyf": rng.choice([0.5, 0.9, 0.9] + ([1.2] if B is None else []))},
+            exts=(rng.random() < 0.5,))
     return ns, recs
 
 
@@ -476,12 +629,17 @@ def _scale_family(ctx, seen):
     # the JSON of one TLC run stays below about 3 MB: dense cases (long unions) travel in their own, smaller, chunks
     size = {c["id"]: len(json.dumps(c)) for c in judged}
     dense = [c for c in judged if meta[c["id"]]["fam"] == "dense"]
-    rej = ctx.trace("Trace_EvenScale", [c for c in judged if meta[c["id"]]["fam"] != "dense"], selftest=_s_selftests(), chunk=150)
+    runs = [c for c in judged if meta[c["id"]]["fam"] == "runs"]
+    rej = ctx.trace("Trace_EvenScale", [c for c in judged if meta[c["id"]]["fam"] not in ("dense", "runs")],
+                    selftest=_s_selftests(), chunk=150)
     if dense:
         rej.update(ctx.trace("Trace_EvenScale", dense, chunk=max(2, 3000000 // max(size[c["id"]] for c in dense))))
+    if runs:
+        rej.update(ctx.trace("Trace_EvenScale", runs, chunk=max(2, min(8, 3000000 // max(size[c["id"]] for c in runs)))))
     by = {}
     for (c, inf), r in zip(res, recs):
-        ctx.count(("S", r), (not inf["ambiguous"]) and inf["candidates"] > 0)
+        ctx.count(("S", r), (not inf["ambiguous"]) and inf["candidates"] > 0
+                  and (r["fam"] != "runs" or any(p["hit"] and p["narrow_run"] for p in inf["probes"])))
         k = by.setdefault(r["fam"], {"cases": 0, "ambiguous_not_judged": 0, "with_candidates": 0, "max_markers": 0,
                                      "max_inserted": 0, "max_union": 0, "max_returned": 0, "with_index_past_32767": 0,
                                      "exact_ties_decided": 0})
@@ -492,16 +650,47 @@ def _scale_family(ctx, seen):
         k["exact_ties_decided"] += 0 if inf["ambiguous"] else inf["ties"]
         for a, b in (("max_markers", "markers"), ("max_inserted", "inserted"), ("max_union", "union"), ("max_returned", "returned")):
             k[a] = max(k[a], inf[b])
+    infos = {r["id"]: inf for (c, inf), r in zip(res, recs)}
     for cid, vs in rej.items():
         r = meta[cid]
         for v in vs:
             if v[0] == "TABLE":
                 raise tlc.TLCFailure("Trace_EvenScale: sparse table of case %s is inconsistent: %s (recipe %r)" % (cid, v, r))
-            _report(ctx, seen, "S/%s/%s/%s" % (v[0], r["fn"], r["extremes"]), v[0], {"kind": "S", "recipe": r},
-                    {"f": _fn(r["fn"]), "n": r["n"], "family": r["fam"], "verdict": v})
+            d = {"f": _fn(r["fn"]), "n": r["n"], "family": r["fam"], "verdict": v}
+            if r["fam"] == "runs":
+                d.update({k: infos[cid][k] for k in ("tx", "ty", "markers", "probes")})
+            _report(ctx, seen, "S/%s/%s/%s" % (v[0], r["fn"], r["extremes"]), v[0], {"kind": "S", "recipe": r}, d)
+    # what the runs family probed: runs by length class, by the block sizes their end falls on, per function
+    rp = {}
+    for (c, inf), r in zip(res, recs):
+        if r["fam"] != "runs" or inf["ambiguous"]:
+            continue
+        k = rp.setdefault(_fn(r["fn"]), {"calls": 0, "max_markers": 0, "min_markers": 10 ** 9, "runs": 0, "probes": 0,
+                                         "probes_hit": 0, "hit_by_run_length": {}, "hit_with_end_on_multiple_of": {},
+                                         "hit_with_end_off_every_multiple_of_64": 0})
+        k["calls"] += 1
+        k["max_markers"] = max(k["max_markers"], inf["markers"])
+        k["min_markers"] = min(k["min_markers"], inf["markers"])
+        for p in inf["probes"]:
+            k["runs"] += 1
+            if not (p["narrow_run"] and p["candidate"]):
+                continue
+            k["probes"] += 1
+            if not p["hit"]:
+                continue
+            k["probes_hit"] += 1
+            cl = "64..127" if p["L"] < 128 else "128..255" if p["L"] < 256 else "256..1023" if p["L"] < 1024 else ">=1024"
+            k["hit_by_run_length"][cl] = k["hit_by_run_length"].get(cl, 0) + 1
+            on = [b for b in (64, 128, 256, 1024) if p["end_ordinal"] % b == 0]
+            for b in on:
+                k["hit_with_end_on_multiple_of"][str(b)] = k["hit_with_end_on_multiple_of"].get(str(b), 0) + 1
+            k["hit_with_end_off_every_multiple_of_64"] += int(not on)
+    ctx.extra["scale_runs"] = rp
+    if not any(k["probes_hit"] for k in rp.values()):
+        ctx.note("scale family, runs: no dense run followed by a candidate gap whose points survive the height filter in this run")
     ctx.extra["scale"] = {"sizes": ns, "cases": len(recs), "by_family": by, "json_bytes_to_tlc": sum(size.values()),
                           "largest_case_json_bytes": max(size.values())}
-    ctx.note("scale family: %d calls on curves of %d sizes from %d to %d points (float / dyadic-tie / dense families, both "
+    ctx.note("scale family: %d calls on curves of %d sizes from %d to %d points (float / dyadic-tie / dense / runs families, both "
              "functions, both extremes settings), judged by Trace_EvenScale on sparse tables" % (len(recs), len(ns), ns[0], ns[-1]))
     pick = next(((c, inf, r) for (c, inf), r in zip(res, recs)
                  if r["fam"] == "float" and r["n"] > 32768 and 2 <= inf["candidates"] and inf["returned"] < inf["union"] <= 40
@@ -527,7 +716,13 @@ def run(ctx):
                  "exact ties W = 2tx, H = ty, integral W/(2tx) are decided, float64 / int64) and dense (hundreds to tens of "
                  "thousands of retained points, marker knees or inserted points) - x both functions x extremes in {False, True}, "
                  "each call judged for completes / valid-indices / equals-documented-set / extremes-included / height-filtered "
-                 "by Trace_EvenScale on sparse tables.")
+                 "by Trace_EvenScale on sparse tables.  The scale family also has a `runs` layout for both functions: 129 .. several "
+                 "thousand knees / retained points on decreasing curves (5 abscissa layouts) holding dense runs of 64, 128, 256, 1024 "
+                 "or a ragged number of consecutive markers (index stride 1..3) inside an x-span below 2*tx, each followed at once by a "
+                 "gap 1.05 .. 4.6 times 2*tx wide (or by the curve end) that is taller than ty for most draws, filler markers placing "
+                 "every run so that it ends on (every function x block size 64 / 128 / 256 / 1024 at least once per run), next to "
+                 "and off the multiples of those block sizes; tx and ty are derived from the layout, every such gap must receive its "
+                 "ceil(w/(2tx)) even points (same clauses, same judge).")
     ctx.assumptions += [
         "G domain: dyadic grids - |dx|/range, 2*tx and their quotient are exact in binary64; |dy|/range is one correctly "
         "rounded division of small integers compared with a dyadic ty, which decides like the rational",
@@ -540,7 +735,11 @@ def run(ctx):
         "and dense families; the dyadic family is judged on ties too, a call being set aside only if some binary64 "
         "intermediate (range, normalised width / height, ceil argument) differs from its rational value (never observed); "
         "height ranks are exact dense ranks among the indices a case mentions (documented union and returned indices); "
-        "calls run under monitor.call with a back-edge budget of monitor.quad(n, 8) and 300 s of CPU"]
+        "calls run under monitor.call with a back-edge budget of monitor.quad(n, 8) and 300 s of CPU",
+        "S runs: thresholds are derived from the built layout (2*tx strictly between the widest run span and the narrowest "
+        "gap that follows a run, ty a fraction of the smallest / median height of those gaps) and are subject to the same "
+        "ambiguity rule; a probe counts in the evidence only when its run is narrower than 2*tx over exact rationals, its gap "
+        "is a candidate and at least one of the gap's even points survives the height filter in the returned array"]
     ctx.mc("Gen_EvenPoints", "MC_EvenPoints", need_actions=("Compute", "EmitCase"))
     beh = ctx.gen("Gen_EvenPoints", "Gen_EvenPoints_quick" if ctx.quick else "Gen_EvenPoints_thorough",
                   workers=16, timeout=3000)
